@@ -96,7 +96,26 @@ def rename_locals(tree: ast.Module) -> None:
                     process(m)
 
 
-KINDS = {"flip": Flip, "aug": Aug, "ifnot": IfNot, "const": Const, "temp": Temp, "rename": None, "mix": None}
+class Doc(ast.NodeTransformer):
+    """rewrite docstrings, drop parameter / return / variable annotations"""
+
+    def visit_FunctionDef(self, n):
+        self.generic_visit(n)
+        if n.body and isinstance(n.body[0], ast.Expr) and isinstance(n.body[0].value, ast.Constant) and isinstance(n.body[0].value.value, str):
+            n.body[0].value = ast.Constant(value="Reworded documentation.")
+        n.returns = None
+        for a in n.args.posonlyargs + n.args.args + n.args.kwonlyargs:
+            a.annotation = None
+        return n
+
+    def visit_AnnAssign(self, n):
+        self.generic_visit(n)
+        if n.value is not None and isinstance(n.target, ast.Name):
+            return ast.Assign(targets=[n.target], value=n.value, lineno=n.lineno)
+        return n
+
+
+KINDS = {"flip": Flip, "aug": Aug, "ifnot": IfNot, "const": Const, "temp": Temp, "doc": Doc, "rename": None, "mix": None}
 
 
 def transform(src: str, kind: str, only_func: str | None = None) -> str:
@@ -105,7 +124,7 @@ def transform(src: str, kind: str, only_func: str | None = None) -> str:
         rename_locals(tree)
         return ast.unparse(tree) + "\n"
     if kind == "mix":
-        for k in ("flip", "aug", "ifnot", "const", "temp"):
+        for k in ("flip", "aug", "ifnot", "const", "temp", "doc"):
             tree = KINDS[k]().visit(tree)
             ast.fix_missing_locations(tree)
         rename_locals(tree)
